@@ -40,6 +40,8 @@ func runC16(c *Check, tier string) {
 	ruleStarlarkThreadsBounded(c, "R16o")
 	ruleEveryLoadedPackageRegistered(c, "R16p")
 	ruleMergeWritesIntoTablePackage(c, "R16q")
+	// a process-wide memo in the loader answers every package with its own result
+	ruleCompositeMemoKeyInjective(c, "R16r", "loading", "hashing", "config", "label", "model", "analysis")
 	shareRule(c, "R16k", "every insertion into the node map is guarded by a lookup of the same label that rejects a duplicate (same obligations as R11c)", 2, "R11c", func(sub *Check) { ruleR11c(sub) }, func(k string) bool { return strings.Contains(k, "guarded-insert") })
 }
 
